@@ -1629,10 +1629,31 @@ func ruleNoPanicUnderPlainLock(c *Ctx, rule string, pkgs []string) {
 // or stores into an element of a slice parameter writes into the caller's array: two goroutines race on it, and the next call with
 // the same list sees a different list.
 func ruleNoWriteIntoCallersSlice(c *Ctx, rule string) {
+	sliceParamsReadOnly(c, rule, []string{"engine", "libvore"}, nil, "a list handed in by the caller of the library", "the elements are written into the caller's array - goroutines that share the list race on it and a later call with the same list sees it changed", 3)
+}
+
+// ruleTokenListReadOnly (C15.R13, C08.R18): after the lexer the token list is only read. A function of package ast that appends to a
+// re-slice of a []*Token parameter (the in-place filter idiom `kept := tokens[i:i]`) or stores into one of its elements writes
+// into the list the parser goes on reading: a synthetic token appended to such a stretch replaces the real token behind it.
+func ruleTokenListReadOnly(c *Ctx, rule string) {
+	tokenT := c.NamedType("ast", "Token")
+	if tokenT == nil {
+		c.R.Ob(rule, "anchor ast.Token", "").Und("not found")
+		return
+	}
+	isTokens := func(p *ssa.Parameter) bool {
+		sl, ok := p.Type().Underlying().(*types.Slice)
+		return ok && types.Identical(deref(sl.Elem()), tokenT)
+	}
+	sliceParamsReadOnly(c, rule, []string{"ast"}, isTokens, "the token list the parser is reading", "the tokens behind the stretch are overwritten in the list that the callers go on parsing: blanks and comments that were filtered out decide what the next token is", 3)
+}
+
+func sliceParamsReadOnly(c *Ctx, rule string, pkgs []string, alwaysExternal func(*ssa.Parameter) bool, whose, consequence string, floor int) {
+	filterOK := alwaysExternal != nil
 	r := c.R
 	nfn := 0
 	var fns []*ssa.Function
-	for _, pkg := range []string{"engine", "libvore"} {
+	for _, pkg := range pkgs {
 		fns = append(fns, c.SrcFuncs(pkg)...)
 	}
 	// per function: the values that share an array with one of its slice parameters, and which of them were reached through a
@@ -1642,59 +1663,126 @@ func ruleNoWriteIntoCallersSlice(c *Ctx, rule string) {
 		resliced map[ssa.Value]bool
 	}
 	infos := map[*ssa.Function]*info{}
-	for _, fn := range fns {
-		inf := &info{map[ssa.Value]*ssa.Parameter{}, map[ssa.Value]bool{}}
-		for _, p := range fn.Params {
-			if _, ok := p.Type().Underlying().(*types.Slice); ok {
-				inf.shares[p] = p
+	// summaries: result i of the function lies (re-sliced) in the array of its parameter j
+	summary := map[*ssa.Function]map[int]int{}
+	paramIndex := func(fn *ssa.Function, p *ssa.Parameter) int {
+		for i, q := range fn.Params {
+			if q == p {
+				return i
 			}
 		}
-		if len(inf.shares) == 0 {
-			continue
-		}
-		infos[fn] = inf
-		for changed := true; changed; {
-			changed = false
-			instrsOf(fn, func(in ssa.Instruction) {
-				switch x := in.(type) {
-				case *ssa.Slice:
-					if p, ok := inf.shares[x.X]; ok && inf.shares[x] == nil {
-						inf.shares[x] = p
-						inf.resliced[x] = true
-						changed = true
+		return -1
+	}
+	for round := 0; round < 4; round++ {
+		grew := false
+		for _, fn := range fns {
+			inf := infos[fn]
+			if inf == nil {
+				inf = &info{map[ssa.Value]*ssa.Parameter{}, map[ssa.Value]bool{}}
+				for _, p := range fn.Params {
+					if _, ok := p.Type().Underlying().(*types.Slice); ok {
+						inf.shares[p] = p
 					}
-				case *ssa.Phi:
-					for _, e := range x.Edges {
-						if p, ok := inf.shares[e]; ok {
-							if inf.shares[x] == nil {
+				}
+				if len(inf.shares) == 0 {
+					continue
+				}
+				infos[fn] = inf
+			}
+			viaSummary := func(call *ssa.Call, idx int) (*ssa.Parameter, bool) {
+				sc := call.Call.StaticCallee()
+				if sc == nil || summary[sc] == nil {
+					return nil, false
+				}
+				pi, ok := summary[sc][idx]
+				if !ok || pi >= len(call.Call.Args) {
+					return nil, false
+				}
+				p, ok := inf.shares[call.Call.Args[pi]]
+				return p, ok
+			}
+			for changed := true; changed; {
+				changed = false
+				instrsOf(fn, func(in ssa.Instruction) {
+					switch x := in.(type) {
+					case *ssa.Extract:
+						if call, ok := x.Tuple.(*ssa.Call); ok && inf.shares[x] == nil {
+							if p, ok := viaSummary(call, x.Index); ok {
 								inf.shares[x] = p
+								inf.resliced[x] = true
 								changed = true
 							}
-							if inf.resliced[e] && !inf.resliced[x] {
+						}
+					case *ssa.Slice:
+						if p, ok := inf.shares[x.X]; ok && inf.shares[x] == nil {
+							inf.shares[x] = p
+							inf.resliced[x] = true
+							changed = true
+						}
+					case *ssa.Phi:
+						for _, e := range x.Edges {
+							if p, ok := inf.shares[e]; ok {
+								if inf.shares[x] == nil {
+									inf.shares[x] = p
+									changed = true
+								}
+								if inf.resliced[e] && !inf.resliced[x] {
+									inf.resliced[x] = true
+									changed = true
+								}
+							}
+						}
+					case *ssa.Call:
+						// the result of an append to such a value still lies in the same array while there is room
+						if b, ok := x.Call.Value.(*ssa.Builtin); ok && b.Name() == "append" && len(x.Call.Args) > 0 {
+							if p, ok := inf.shares[x.Call.Args[0]]; ok && inf.resliced[x.Call.Args[0]] && inf.shares[x] == nil {
+								inf.shares[x] = p
+								inf.resliced[x] = true
+								changed = true
+							}
+						} else if inf.shares[x] == nil {
+							if p, ok := viaSummary(x, 0); ok && x.Call.Signature().Results().Len() == 1 {
+								inf.shares[x] = p
 								inf.resliced[x] = true
 								changed = true
 							}
 						}
 					}
-				case *ssa.Call:
-					// the result of an append to such a value still lies in the same array while there is room
-					if b, ok := x.Call.Value.(*ssa.Builtin); ok && b.Name() == "append" && len(x.Call.Args) > 0 {
-						if p, ok := inf.shares[x.Call.Args[0]]; ok && inf.resliced[x.Call.Args[0]] && inf.shares[x] == nil {
-							inf.shares[x] = p
-							inf.resliced[x] = true
-							changed = true
+				})
+			}
+			for _, b := range fn.Blocks {
+				ret, ok := b.Instrs[len(b.Instrs)-1].(*ssa.Return)
+				if !ok {
+					continue
+				}
+				for i, res := range ret.Results {
+					if p, ok := inf.shares[res]; ok && inf.resliced[res] {
+						if summary[fn] == nil {
+							summary[fn] = map[int]int{}
+						}
+						if _, known := summary[fn][i]; !known {
+							if pi := paramIndex(fn, p); pi >= 0 {
+								summary[fn][i] = pi
+								grew = true
+							}
 						}
 					}
 				}
-			})
+			}
+		}
+		if !grew {
+			break
 		}
 	}
 	// whose list is it? the slice parameters of the exported entry points are the callers'; so is a parameter that is handed a
 	// value sharing its array with such a parameter
 	external := map[*ssa.Parameter]bool{}
 	for fn, inf := range infos {
-		if token.IsExported(fn.Name()) {
-			for _, p := range inf.shares {
+		for _, p := range inf.shares {
+			if token.IsExported(fn.Name()) && alwaysExternal == nil {
+				external[p] = true
+			}
+			if alwaysExternal != nil && alwaysExternal(p) {
 				external[p] = true
 			}
 		}
@@ -1734,9 +1822,13 @@ func ruleNoWriteIntoCallersSlice(c *Ctx, rule string) {
 			case *ssa.Call:
 				if b, ok := x.Call.Value.(*ssa.Builtin); ok && b.Name() == "append" && len(x.Call.Args) > 0 {
 					if p, ok := inf.shares[x.Call.Args[0]]; ok && external[p] && inf.resliced[x.Call.Args[0]] {
+						if filterOK && appendsOwnElements(x, func(v ssa.Value) bool { return inf.shares[v] == p }) {
+							// the in-place filter: elements of the list are moved towards its front, one per element visited at most
+							return
+						}
 						k++
 						r.Ob(rule, fmt.Sprintf("%s: append #%d does not write into the array of parameter %s", fnName(fn), k, p.Name()), c.pos(x.Pos())).
-							Bad("appends to " + exprStr(x.Call.Args[0]) + ", a re-slice of the parameter " + p.Name() + " (a list handed in by the caller of the library): the elements are written into the caller's array - goroutines that share the list race on it and a later call with the same list sees it changed")
+							Bad("appends to " + exprStr(x.Call.Args[0]) + ", a re-slice of the parameter " + p.Name() + " (" + whose + "): " + consequence)
 					}
 				}
 			case *ssa.Store:
@@ -1744,15 +1836,15 @@ func ruleNoWriteIntoCallersSlice(c *Ctx, rule string) {
 					if p, ok := inf.shares[ia.X]; ok && external[p] {
 						k++
 						r.Ob(rule, fmt.Sprintf("%s: store #%d does not write into the array of parameter %s", fnName(fn), k, p.Name()), c.pos(x.Pos())).
-							Bad("stores into an element of " + exprStr(ia.X) + ", which shares its array with the parameter " + p.Name() + " (a list handed in by the caller of the library): the caller's list is modified")
+							Bad("stores into an element of " + exprStr(ia.X) + ", which shares its array with the parameter " + p.Name() + " (" + whose + "): the list is modified")
 					}
 				}
 			}
 		})
 	}
-	ob := r.Ob(rule, "functions of engine and libvore that take a slice", "")
+	ob := r.Ob(rule, "functions of "+strings.Join(pkgs, " and ")+" that take a slice", "")
 	ob.OK(fmt.Sprintf("%d function(s) examined for writes through a slice parameter", nfn))
-	r.Floor(rule, "functions with slice parameters examined", nfn, 3)
+	r.Floor(rule, "functions with slice parameters examined", nfn, floor)
 }
 
 // fromProgramData: the collection is (a conversion or a re-slice of) a field of an AST node or a string parameter.
@@ -2227,4 +2319,337 @@ func ruleEOFIsNotACommandError(c *Ctx, rule string) {
 	default:
 		ob.OKnt(fmt.Sprintf("with the token kind fixed to EOF the %d reachable return(s) carry a nil error", nret))
 	}
+}
+
+// ---------------------------------------------------------------------------------------------
+// C13.R17 / C04.R11: the commands of a program are run independently of one another.
+//
+// "The result of a multi-command source is the concatenation of the results of its commands taken alone": in Run and RunFiles the
+// loop over the commands may carry one thing from a command to the next - the list of results it appends to. A text that is
+// threaded through the commands (the next command searches what the previous one replaced), or a table that one command fills and
+// a later one reads (a memo of scans), makes a command's result depend on its predecessors. Checked on the loop over
+// bytecode.Bytecode: every value carried round it is the range index or the result list, every reader constructor inside it is
+// handed a parameter of the function (or a value made from one inside the iteration), and no map that lives outside the loop is
+// updated inside it.
+func ruleCommandsIndependent(c *Ctx, rule string) {
+	r := c.R
+	mT := c.NamedType("engine", "Match")
+	n := 0
+	for _, name := range []string{"Run", "RunFiles"} {
+		fn := c.Fn("engine", name)
+		ob := r.Ob(rule, "engine."+name+": nothing but the result list travels from one command to the next", "")
+		if fn == nil {
+			ob.Und("not found")
+			continue
+		}
+		ob.Pos = c.pos(fn.Pos())
+		// the loop over the commands: the outermost loop that indexes a []bytecode.Command
+		var loop []*ssa.BasicBlock
+		for _, comp := range sccs(fn, func(a, b *ssa.BasicBlock) bool { return true }) {
+			over := false
+			for _, b := range comp {
+				for _, in := range b.Instrs {
+					if ia, ok := in.(*ssa.IndexAddr); ok {
+						if sl, ok := ia.X.Type().Underlying().(*types.Slice); ok {
+							if nt, ok := sl.Elem().(*types.Named); ok && nt.Obj().Name() == "Command" {
+								over = true
+							}
+						}
+					}
+				}
+			}
+			if over && len(comp) > len(loop) {
+				loop = comp
+			}
+		}
+		if loop == nil {
+			ob.Und("no loop over the commands of the program in this function (the commands are walked elsewhere)")
+			continue
+		}
+		n++
+		in := map[*ssa.BasicBlock]bool{}
+		for _, b := range loop {
+			in[b] = true
+		}
+		var bad []string
+		isResultList := func(t types.Type) bool {
+			sl, ok := t.Underlying().(*types.Slice)
+			return ok && mT != nil && types.Identical(sl.Elem(), mT)
+		}
+		for _, b := range loop {
+			for _, ins := range b.Instrs {
+				switch x := ins.(type) {
+				case *ssa.Phi:
+					// carried round the command loop: it has an edge from outside the loop and one from inside
+					fromOut, fromIn := false, false
+					for i, p := range b.Preds {
+						if i < len(x.Edges) {
+							if in[p] {
+								fromIn = true
+							} else {
+								fromOut = true
+							}
+						}
+					}
+					if !fromOut || !fromIn {
+						continue
+					}
+					if bt, ok := x.Type().Underlying().(*types.Basic); ok && bt.Info()&types.IsInteger != 0 {
+						continue // a range index
+					}
+					if isResultList(x.Type()) {
+						continue
+					}
+					// (the phis of inner loops have no edge from outside the command loop and were skipped above)
+					bad = append(bad, fmt.Sprintf("%s (%s) is carried from one command to the next [%s]", exprStr(x), types.TypeString(x.Type(), shortQual), c.pos(x.Pos())))
+				case *ssa.MapUpdate:
+					if def, ok := x.Map.(ssa.Instruction); ok && !in[def.Block()] {
+						bad = append(bad, "a table made before the loop is filled inside it ["+c.pos(x.Pos())+"]")
+					} else if _, isParam := x.Map.(*ssa.Parameter); isParam {
+						bad = append(bad, "a table handed to the function is filled inside the loop ["+c.pos(x.Pos())+"]")
+					}
+				case *ssa.Call:
+					// a helper of the package that is handed a map or a pointer to a struct that was made before the loop
+					sc := x.Call.StaticCallee()
+					if sc == nil || !c.isRepoFn(sc) {
+						continue
+					}
+					for _, a := range x.Call.Args {
+						if _, isMap := a.Type().Underlying().(*types.Map); !isMap {
+							continue
+						}
+						if def, ok := a.(ssa.Instruction); ok && !in[def.Block()] {
+							bad = append(bad, "a table made before the loop ("+exprStr(a)+") is handed to "+fnName(sc)+" inside it ["+c.pos(x.Pos())+"]")
+						}
+					}
+				}
+			}
+		}
+		if len(bad) == 0 {
+			ob.OKnt("the loop over the commands carries its index and the result list only, and fills no table that outlives an iteration")
+		} else {
+			sort.Strings(bad)
+			ob.Bad(strings.Join(uniq(bad), "; ") + ": what a command finds then depends on the commands before it, and the result of the program is no longer the concatenation of the results of its commands taken alone")
+		}
+	}
+	r.Floor(rule, "command loops examined", n, 1)
+}
+
+// ---------------------------------------------------------------------------------------------
+// C15.R12 / C16.R13: the matching quote ends a string literal, whatever follows it.
+//
+// With the lexer's state fixed to a string state and the character to that state's own quote, the scanning loop is left: two
+// literals written next to each other ('a”b') are two tokens, as they are with a blank or a comment between them, and a quote
+// cannot be spelt by doubling it.
+func ruleQuoteEndsString(c *Ctx, rule string) {
+	r := c.R
+	la := c.lexerAnchors()
+	if la.err != "" {
+		r.Ob(rule, "anchor: the lexer's scanning loop", "").Und(la.err)
+		return
+	}
+	n := 0
+	for _, name := range sortedKeys(la.byName) {
+		var quote rune
+		switch {
+		case strings.Contains(name, "STRING") && strings.Contains(name, "SINGLE") && !strings.Contains(name, "ESCAPE"):
+			quote = '\''
+		case strings.Contains(name, "STRING") && strings.Contains(name, "DOUBLE") && !strings.Contains(name, "ESCAPE"):
+			quote = '"'
+		default:
+			continue
+		}
+		n++
+		ob := r.Ob(rule, fmt.Sprintf("getNextToken: in state %s the quote %q ends the token", name, string(quote)), c.pos(la.statePhi.Pos()))
+		next, leaves, unk := la.world(la.byName[name], quote)
+		// what stays undecided in this world: a branch whose condition looks at more input (a peek, a second read) is the witness;
+		// one that only could not be folded (a quote kept in a local record, a table) is not
+		readsMore := false
+		if w := la.lastWorld; w != nil {
+			for b := range la.loop {
+				if !w.Reach[b] {
+					continue
+				}
+				iff, ok := b.Instrs[len(b.Instrs)-1].(*ssa.If)
+				if !ok || w.get(iff.Cond).k == 1 {
+					continue
+				}
+				seen := map[ssa.Value]bool{}
+				var walk func(v ssa.Value, d int)
+				walk = func(v ssa.Value, d int) {
+					if v == nil || seen[v] || d > 10 || readsMore {
+						return
+					}
+					seen[v] = true
+					if call, ok := v.(*ssa.Call); ok && v != ssa.Value(la.readCall) {
+						if sc := call.Call.StaticCallee(); sc != nil {
+							if sc.Pkg != nil && sc.Pkg.Pkg.Path() == "bufio" {
+								readsMore = true
+								return
+							}
+							if recv := sc.Signature.Recv(); recv != nil && sc.Pkg == la.fn.Pkg {
+								// a method of the lexer that reads or peeks
+								for f := range c.Reachable(sc) {
+									if f.Pkg != nil && f.Pkg.Pkg.Path() == "bufio" {
+										readsMore = true
+										return
+									}
+								}
+							}
+						}
+					}
+					if x, ok := v.(ssa.Instruction); ok {
+						for _, op := range x.Operands(nil) {
+							if *op != nil {
+								walk(*op, d+1)
+							}
+						}
+					}
+				}
+				walk(iff.Cond, 0)
+			}
+		}
+		switch {
+		case len(next) == 0 && !unk && leaves:
+			ob.OKnt("with the state and the character fixed the loop is left and cannot go round")
+		case (len(next) > 0 || unk) && !readsMore && leaves:
+			ob.Und(fmt.Sprintf("with the state fixed to %s and the character to its quote a decision of the loop does not fold (the quote is kept in a record or a table); it does not look at further input", name))
+		case len(next) > 0 || unk:
+			ob.Bad(fmt.Sprintf("with the state fixed to %s and the character to its quote the loop can go on (next state %v, or a decision that depends on what follows): whether the literal ends here depends on the text after it, so 'a''b' is read differently from 'a' 'b'", name, sortedKeys(next)))
+		default:
+			ob.Und("the loop neither goes on nor is left")
+		}
+	}
+	r.Floor(rule, "string states of the lexer", n, 2)
+}
+
+// ---------------------------------------------------------------------------------------------
+// C16.R12: the text of a string token is not cut by the parser.
+//
+// What a literal denotes is decided by the lexer, escape by escape. A library call in package ast that trims or replaces inside
+// the text of a token (strings.Trim*, strings.Replace*, strings.Fields, strings.ToLower on a STRING's text ...) changes what was
+// decided: strings.Trim(lexeme, "'") removes every quote at both ends, also those the program spelt with an escape.
+func ruleTokenTextNotCut(c *Ctx, rule string) {
+	r := c.R
+	tokenT := c.NamedType("ast", "Token")
+	if tokenT == nil {
+		r.Ob(rule, "anchor ast.Token", "").Und("not found")
+		return
+	}
+	fromLexeme := func(v ssa.Value) bool {
+		seen := map[ssa.Value]bool{}
+		var walk func(v ssa.Value, d int) bool
+		walk = func(v ssa.Value, d int) bool {
+			if v == nil || seen[v] || d > 8 {
+				return false
+			}
+			seen[v] = true
+			switch x := v.(type) {
+			case *ssa.UnOp:
+				if fa, ok := x.X.(*ssa.FieldAddr); ok && types.Identical(deref(fa.X.Type()), tokenT) && fieldName(tokenT, fa.Field) == "Lexeme" {
+					return true
+				}
+				return walk(x.X, d+1)
+			case *ssa.Field:
+				if types.Identical(x.X.Type(), tokenT) && fieldName(tokenT, x.Field) == "Lexeme" {
+					return true
+				}
+			case *ssa.Phi:
+				for _, e := range x.Edges {
+					if walk(e, d+1) {
+						return true
+					}
+				}
+			case *ssa.Slice:
+				return walk(x.X, d+1)
+			case *ssa.Convert:
+				return walk(x.X, d+1)
+			}
+			return false
+		}
+		return walk(v, 0)
+	}
+	n := 0
+	for _, fn := range c.SrcFuncs("ast") {
+		instrsOf(fn, func(in ssa.Instruction) {
+			call, ok := in.(*ssa.Call)
+			if !ok {
+				return
+			}
+			sc := call.Call.StaticCallee()
+			if sc == nil || sc.Pkg == nil || sc.Pkg.Pkg.Path() != "strings" || len(call.Call.Args) == 0 {
+				return
+			}
+			if !fromLexeme(call.Call.Args[0]) {
+				return
+			}
+			n++
+			ob := r.Ob(rule, fmt.Sprintf("%s: strings.%s on the text of a token", fnName(fn), sc.Name()), c.pos(call.Pos()))
+			switch {
+			case strings.HasPrefix(sc.Name(), "Trim") || strings.HasPrefix(sc.Name(), "Replace") || sc.Name() == "Fields" || sc.Name() == "Title":
+				ob.Bad("strings." + sc.Name() + " cuts into the text of a token: characters that the program spelt (a quote written with an escape at the end of a literal, a blank at its start) are removed from what the literal denotes")
+			default:
+				ob.OKnt("does not change the text (a comparison, a case mapping of a keyword)")
+			}
+		})
+	}
+	ob := r.Ob(rule, "library calls on the text of tokens in package ast", "")
+	ob.OK(fmt.Sprintf("%d call(s) into package strings take the text of a token", n))
+}
+
+// appendsOwnElements: every value this append adds was loaded from an element of the same list (`kept = append(kept, tokens[i])`,
+// `append(kept, tokens[a:b]...)`).
+func appendsOwnElements(call *ssa.Call, sameList func(ssa.Value) bool) bool {
+	if len(call.Call.Args) != 2 {
+		return false
+	}
+	var own func(v ssa.Value, d int) bool
+	own = func(v ssa.Value, d int) bool {
+		if d > 6 {
+			return false
+		}
+		switch x := v.(type) {
+		case *ssa.UnOp:
+			if ia, ok := x.X.(*ssa.IndexAddr); ok && x.Op == token.MUL {
+				return sameList(ia.X)
+			}
+		case *ssa.Phi:
+			for _, e := range x.Edges {
+				if !own(e, d+1) {
+					return false
+				}
+			}
+			return len(x.Edges) > 0
+		}
+		return false
+	}
+	arg := call.Call.Args[1]
+	if sameList(arg) {
+		return true // append(kept, tokens[a:b]...)
+	}
+	// the variadic argument: a slice made of a fresh array whose elements are stored once each
+	sl, ok := arg.(*ssa.Slice)
+	if !ok {
+		return false
+	}
+	al, ok := sl.X.(*ssa.Alloc)
+	if !ok {
+		return false
+	}
+	n := 0
+	for _, ref := range *al.Referrers() {
+		ia, ok := ref.(*ssa.IndexAddr)
+		if !ok {
+			continue
+		}
+		for _, r2 := range *ia.Referrers() {
+			if st, ok := r2.(*ssa.Store); ok {
+				n++
+				if !own(st.Val, 0) {
+					return false
+				}
+			}
+		}
+	}
+	return n > 0
 }
